@@ -69,9 +69,12 @@ func (p *Prog) lpath(v ssa.Value) string {
 	case nil:
 		return "_"
 	case *ssa.Parameter:
-		return "p:" + x.Name()
+		return "p:" + canonParam(x)
 	case *ssa.FreeVar:
 		if p.isParamCapture(x) {
+			if pr := p.capturedParam(x); pr != nil {
+				return "p:" + canonParam(pr)
+			}
 			return "p:" + x.Name()
 		}
 		return "fv:" + x.Name()
@@ -608,9 +611,82 @@ func (p *Prog) paramCell(a *ssa.Alloc) string {
 		return ""
 	}
 	if pr, ok := st[0].Val.(*ssa.Parameter); ok && pr.Parent() == a.Parent() {
-		return pr.Name()
+		return canonParam(pr)
 	}
 	return ""
+}
+
+// Canonical parameter names: facts and rules speak about parameters by the name they have on the pinned tree;
+// renaming a parameter or a receiver in the source must not unbind a rule. Receivers are canonical per receiver
+// type, other parameters per (function name, position).
+var canonRecv = map[string]string{
+	"goat.handler": "h", "goat.Server": "s", "server.serverStream": "ss", "server.unaryServerTransportStream": "sts",
+	"server.serverTransportStream": "sts", "client.RpcMultiplexer": "rm", "goat.ClientConn": "cc", "client.clientStream": "cs",
+	"goat.Proxy": "p", "goat.proxyClient": "c", "goat.Demux": "gsd", "goat.demuxConn": "c", "goat.GoatOverHttp": "goh",
+	"goat.httpReadWriter": "hrw", "goat.goatOverWebsocket": "ws", "int.fnReadWriter": "frw",
+}
+
+var canonParamAt = map[string]string{
+	"errorIfDone#0": "rpc", "SendTrailer#1": "trErr", "contextFromHeaders#0": "parent", "contextFromHeaders#1": "h",
+	"processStreamingRpc#1": "clientCtx", "processStreamingRpc#4": "rpc", "processUnaryRpc#1": "clientCtx", "processUnaryRpc#4": "rpc",
+	"runStream#3": "rpc", "runStream#4": "streamId", "runStream#5": "ctx", "resetStream#1": "rpc",
+	"parseGrpcTimeout#0": "timeout", "closeError#1": "err", "handleResponse#1": "rpc", "serve#1": "clientCtx",
+	"forwardRpc#1": "source", "forwardRpc#2": "rpc", "readLoop#1": "ctx", "writeLoop#1": "ctx", "readWrite#1": "ctx", "connect#1": "ctx",
+	"reportError#1": "ctx", "reportError#2": "err", "serveClients#1": "ctx", "ServeHTTP#1": "w", "ServeHTTP#2": "r",
+	"StatsEndRPC#3": "appErr", "StatsEndRPC#0": "statsHandlers", "toStatusError#0": "err", "headersFromContext#0": "ctx",
+	"invoke#1": "ctx", "invoke#3": "args", "invoke#4": "reply", "newStream#1": "ctx", "Invoke#1": "ctx", "NewStream#1": "ctx",
+	"CallUnaryMethod#1": "ctx", "CallUnaryMethod#2": "header", "CallUnaryMethod#3": "body", "CallUnaryMethod#4": "statsHandlers",
+	"registerHandler#1": "id", "registerHandler#2": "c", "unregisterHandler#1": "id", "unregisterStream#1": "id",
+	"RecvMsg#1": "m", "SendMsg#1": "m", "Read#1": "ctx", "Write#1": "ctx", "Write#2": "rpc",
+	"addOutgoingConnectionLocked#1": "id", "newConnLocked#1": "id", "Cancel#1": "id", "retrieve#1": "id", "unregisterLocked#1": "id",
+	"getChainUnaryHandler#0": "interceptors", "getChainUnaryHandler#1": "curr", "getChainUnaryHandler#3": "finalHandler",
+	"getChainStreamHandler#0": "interceptors", "getChainStreamHandler#1": "curr", "getChainStreamHandler#3": "finalHandler",
+	"encodeGrpcTimeout#0": "timeout", "parseRawMethod#0": "sm", "setHeader#1": "md", "setHeaderLocked#1": "md",
+}
+
+func canonParam(pr *ssa.Parameter) string {
+	f := pr.Parent()
+	if f == nil || f.Parent() != nil {
+		return pr.Name() // closures keep their own names
+	}
+	idx := -1
+	for i, x := range f.Params {
+		if x == pr {
+			idx = i
+		}
+	}
+	if idx == 0 && f.Signature.Recv() != nil {
+		if n, ok := canonRecv[typeKey(f.Signature.Recv().Type())]; ok {
+			return n
+		}
+	}
+	if n, ok := canonParamAt[f.Name()+"#"+itoa(idx)]; ok {
+		return n
+	}
+	return pr.Name()
+}
+
+// capturedParam: the parameter a by-value free variable is (transitively) bound to.
+func (p *Prog) capturedParam(fv *ssa.FreeVar) *ssa.Parameter {
+	for _, b := range p.freeVarBindings(fv) {
+		switch x := b.(type) {
+		case *ssa.Parameter:
+			return x
+		case *ssa.FreeVar:
+			if pr := p.capturedParam(x); pr != nil {
+				return pr
+			}
+		case *ssa.UnOp:
+			if al, ok := x.X.(*ssa.Alloc); ok {
+				if st := p.cellStores(al); len(st) == 1 {
+					if pr, ok := st[0].Val.(*ssa.Parameter); ok {
+						return pr
+					}
+				}
+			}
+		}
+	}
+	return nil
 }
 
 // isParamCapture: the free variable is bound (by value) to a parameter of an enclosing function, or to a
